@@ -214,7 +214,9 @@ def install_loop_wall_clock():
     """Idempotent; checks that need a steppable clock (C15) or exact control (C10) replace it for their own runs."""
     from nauyaca.server import protocol as P
 
-    if not isinstance(P.time, _LoopWallClock) and getattr(P.time, "__name__", "") == "time":
+    import time as _t
+
+    if P.time is _t:
         P.time = _LoopWallClock()
 
 
